@@ -1,4 +1,80 @@
+(* C06 - bitmap decoding reproduces every source pixel for a standard BMP reader.
+   Statements only; proofs in Proofs/BitdFacts.v.  PROVED here: the 8-bit compressed decoder for every
+   valid scan-line PackBits encoding (rows given as token lists: any cut into literals of 1..128 bytes
+   and runs of 2..129 copies), under the geometry condition "stored row fits the BMP stride";
+   the header fields a BMP reader uses.  NOT proved (model + correspondence + direct oracle only):
+   raw rows, 1-, 16- and 32-bit decoders; see the open known findings of C06. *)
 From Coq Require Import List ZArith.
-From DRX Require Import Py.PyBytes Model.Bitd.
-Theorem C06_stub : stride4 5 = 8%Z. Proof. reflexivity. Qed.
-Print Assumptions C06_stub.
+From Coq.Strings Require Import Byte.
+From DRX Require Import Py.PyBytes Model.Riff Model.Clut Model.Bitd Proofs.BitdFacts.
+Import ListNotations.
+Open Scope Z_scope.
+
+(* every source pixel at (w_padding, h_padding), background elsewhere, bottom-up rows of [stride4 bw] bytes *)
+Theorem C06_compressed8_pixels : forall bw bh pw ph rows,
+  let w := bw - pw in let W := w + w mod 2 in let width := stride4 bw in
+  0 <= pw -> 0 < w -> 0 <= ph -> zlen rows = bh - ph ->
+  pw + W <= width ->
+  Forall (wf_row W) rows ->
+  decode_compressed8 (concat (map enc_toks rows)) bw bh pw ph width
+  = Ok (concat (map (fun ts => canvas_row pw W width (dec_toks ts)) (rev rows)) ++ zerosZ (width * ph)).
+Proof. exact compressed8_pixels. Qed.
+
+(* two different valid encodings of one image yield identical pixel arrays *)
+Theorem C06_compressed8_encoding_independent : forall bw bh pw ph rows1 rows2,
+  let w := bw - pw in let W := w + w mod 2 in let width := stride4 bw in
+  0 <= pw -> 0 < w -> 0 <= ph -> zlen rows1 = bh - ph -> zlen rows2 = bh - ph -> pw + W <= width ->
+  Forall (wf_row W) rows1 -> Forall (wf_row W) rows2 ->
+  map dec_toks rows1 = map dec_toks rows2 ->
+  decode_compressed8 (concat (map enc_toks rows1)) bw bh pw ph width
+  = decode_compressed8 (concat (map enc_toks rows2)) bw bh pw ph width.
+Proof. exact compressed8_encoding_independent. Qed.
+
+(* the full statement without the geometry condition is false on the faithful model (open finding C06-8bit-pad-leak) *)
+Theorem C06_compressed8_leak_refuted :
+  exists data, decode_compressed8 (concat (map enc_toks leak_rows)) 4 2 1 0 (stride4 4) = Ok data /\
+               nth 4 data x00 = x55 /\
+               firstn 8 data <> canvas_row 1 3 4 [x04; x05; x06] ++ canvas_row 1 3 4 [x01; x02; x03].
+Proof. exact compressed8_leak_witness. Qed.
+
+(* token level: a run paints n equal values, a literal copies its bytes, over any cells of the row *)
+Theorem C06_run_paints : forall n a seg b x y w width pw v,
+  length seg = n -> zlen a = y * width + x + pw -> x + Z.of_nat n <= w ->
+  put_run8 n (a ++ seg ++ b) x y w width pw v = Ok (a ++ repeat v n ++ b, x + Z.of_nat n).
+Proof. exact put_run8_paints. Qed.
+Theorem C06_literal_paints : forall l fp fs a seg b x y w width pw,
+  length seg = length l -> zlen a = y * width + x + pw -> x + zlen l <= w ->
+  put_lit8 (length l) (fp ++ l ++ fs) (a ++ seg ++ b) x y w width pw (zlen fp)
+  = Ok (a ++ l ++ b, x + zlen l, zlen fp + zlen l).
+Proof. exact put_lit8_paints. Qed.
+
+(* what a BMP reader looks at: signature, data offset, width, height, bits per pixel; 4-byte aligned stride *)
+Theorem C06_stride : forall w, 0 <= w -> stride4 w mod 4 = 0 /\ w <= stride4 w < w + 4.
+Proof. exact stride4_spec. Qed.
+Theorem C06_header_fields : forall size offset rest,
+  slice (bmp_header size offset ++ rest) 0 2 = ["B"; "M"]%byte /\
+  slice (bmp_header size offset ++ rest) 10 14 = pack 4 Little offset.
+Proof. exact bmp_header_fields. Qed.
+Theorem C06_info_fields : forall w h bpp nc pre rest, zlen pre = 14 ->
+  slice (pre ++ bmp_info_header w h bpp nc ++ rest) 18 22 = pack 4 Little w /\
+  slice (pre ++ bmp_info_header w h bpp nc ++ rest) 22 26 = pack 4 Little h /\
+  slice (pre ++ bmp_info_header w h bpp nc ++ rest) 28 30 = pack 2 Little bpp.
+Proof. exact bmp_info_fields. Qed.
+
+(* non-vacuity: two segmentations of a 3x2 image at offset (1,1) on a 4x3 canvas decode to the same array *)
+Example C06_example :
+  let r1 := [[TRun 2 x07; TLit [x09; x00]]; [TLit [x01]; TRun 3 x00]] in
+  let r2 := [[TLit [x07; x07; x09; x00]]; [TLit [x01; x00]; TRun 2 x00]] in
+  map dec_toks r1 = map dec_toks r2 /\
+  decode_compressed8 (concat (map enc_toks r1)) 4 3 0 1 (stride4 4) = Ok [x01; x00; x00; x00; x07; x07; x09; x00; x00; x00; x00; x00] /\
+  decode_compressed8 (concat (map enc_toks r2)) 4 3 0 1 (stride4 4) = Ok [x01; x00; x00; x00; x07; x07; x09; x00; x00; x00; x00; x00].
+Proof. vm_compute. repeat split; reflexivity. Qed.
+
+Print Assumptions C06_compressed8_pixels.
+Print Assumptions C06_compressed8_encoding_independent.
+Print Assumptions C06_compressed8_leak_refuted.
+Print Assumptions C06_run_paints.
+Print Assumptions C06_literal_paints.
+Print Assumptions C06_stride.
+Print Assumptions C06_header_fields.
+Print Assumptions C06_info_fields.
